@@ -1427,16 +1427,14 @@ impl KotoVm {
                     if !op.is_callable() {
                         return unexpected_type("Callable function from @next", &op);
                     }
-                    // The return value will be retrieved from execute_instructions
-                    self.call_overridden_op_1(None, iterable_register, op)?;
-                    self.frame_mut().execution_barrier = true;
-                    match self.execute_instructions() {
-                        Ok(Null) => None,
-                        Ok(output) => Some(output),
-                        Err(error) => {
-                            self.pop_frame(KValue::Null)?;
-                            return Err(error);
-                        }
+                    // A temporary register receives the result if @next isn't a Koto function
+                    let old_frame_count = self.call_stack.len();
+                    let [next_result_register] = self.next_registers()?;
+                    self.registers.push(KValue::Null);
+                    self.call_overridden_op_1(Some(next_result_register), iterable_register, op)?;
+                    match self.get_overridden_op_result(old_frame_count, next_result_register)? {
+                        Null => None,
+                        output => Some(output),
                     }
                 }
                 unexpected => return unexpected_type("Iterator", &unexpected),
@@ -2375,17 +2373,14 @@ impl KotoVm {
         rhs: KValue,
         op: KValue,
     ) -> Result<bool> {
-        self.call_overridden_op_2(None, lhs, rhs, op)?;
-        self.frame_mut().execution_barrier = true;
-        match self.execute_instructions() {
-            Ok(result) => match result {
-                KValue::Bool(result) => Ok(result),
-                unexpected => unexpected_type("Bool", &unexpected),
-            },
-            Err(error) => {
-                self.pop_frame(KValue::Null)?;
-                Err(error)
-            }
+        // A temporary register receives the result if the op isn't a Koto function
+        let old_frame_count = self.call_stack.len();
+        let [result_register] = self.next_registers()?;
+        self.registers.push(KValue::Null);
+        self.call_overridden_op_2(Some(result_register), lhs, rhs, op)?;
+        match self.get_overridden_op_result(old_frame_count, result_register)? {
+            KValue::Bool(result) => Ok(result),
+            unexpected => unexpected_type("Bool", &unexpected),
         }
     }
 
@@ -4279,6 +4274,7 @@ mod macros {
     macro_rules! call_metamap_arithmetic_op {
         ($self:expr, $op:ident, $op_rhs:ident, $trait_fn:ident, $trait_fn_rhs:ident, $map:expr, $lhs:expr, $rhs:expr, $result_register:expr) => {{
             let op = $map.get_meta_value(&$op.into()).unwrap();
+            let old_frame_count = $self.call_stack.len();
 
             // Call the map's op function
             $self.call_overridden_op_2(
@@ -4288,14 +4284,25 @@ mod macros {
                 op,
             )?;
 
-            // Execute the function immediately so that we can check for `koto.unimplemented` errors
-            // - Enable the execution barrier on the function's frame so errors aren't propagated
-            $self.frame_mut().execution_barrier = true;
-            match $self.execute_instructions() {
-                Ok(result) => result,
-                Err(error) => {
+            let op_result = if $self.call_stack.len() == old_frame_count {
+                // No frame was pushed, so the op isn't a Koto function (e.g. a native function),
+                // and the result of the call is already in the result register.
+                Ok($self.clone_register($result_register))
+            } else {
+                // Execute the function immediately so that we can check for `koto.unimplemented`
+                // - Enable the execution barrier on the function's frame so errors aren't propagated
+                $self.frame_mut().execution_barrier = true;
+                let result = $self.execute_instructions();
+                if result.is_err() {
                     // Pop the frame given that an error has been thrown
                     $self.pop_frame(KValue::Null)?;
+                }
+                result
+            };
+
+            match op_result {
+                Ok(result) => result,
+                Err(error) => {
                     // Check for a `koto.unimplemented` error
                     let ErrorKind::KotoError { thrown_value, .. } = &error.error else {
                         // A non-unimplemented error was thrown, so propagate it
